@@ -24,6 +24,9 @@ func init() {
 
 func runC15(p *eng.Prog, r *eng.Report, tier string) {
 	c := &cx{p, r, tier}
+	// C15.31 (= C06.6): the answer to <close/> is released on every path (an unreleased response blocks the
+	// serve loop: later streams on the session never see their data or end-of-file)
+	respRelease(c, "C15.31", 1)
 	// C15.26 (= C09.17 / C10.10): no cycle in the lock-order graph: a deadlock between a
 	// writer and Close, or between the serve loop and a requester, ends every guarantee of this property
 	lockOrder(c, "C15.26")
